@@ -52,6 +52,17 @@ def generate(tier, seed):
                 steps += [o] + qblock()
             cases.append(case("twin", sp, adapter_M(lines), "-", steps))
             dist["exhaustive"] += 1
+    # every mutator with the adapter failing / refusing exactly at that call (warm cache before, queries after)
+    for m1 in muts:
+        for fault in "rflh":
+            for pre in ([], [muts[2]]):
+                steps = qblock()
+                for o in pre:
+                    steps += [o] + qblock()
+                steps += [m1] + qblock()
+                script = "p" + "p" * len(pre) + fault
+                cases.append(case("twin", sp, adapter_X(adapter_M(lines), script), "-", steps))
+                dist["exhaustive"] += 1
     for _ in range(60 if tier == "quick" else 1500):
         n = rnd.choice([3, 6, 15, 40, 80]) if tier != "quick" else rnd.choice([3, 6, 15, 40])
         steps = []
